@@ -64,6 +64,8 @@ func init() {
 	sort.Strings(instIDs)
 }
 
+// instID: node names are case-insensitive in the catalog (a node re-registered as "N1" is node "n1"),
+// so rows are identified by the lower-cased node name and the service id
 func instID(node, sid string) int {
 	k := strings.ToLower(node) + "/" + sid
 	for i, s := range instIDs {
@@ -191,6 +193,7 @@ type Step struct {
 	ReqIdx uint64    `json:"reqidx,omitempty"` // sub: index in the request (the materializer's index)
 	QIdx   uint64    `json:"qidx,omitempty"`   // sub: index the direct query reports for the subject right now
 	QLen   int       `json:"qlen,omitempty"`   // sub: publisher queue length right now
+	Path   string    `json:"path,omitempty"`   // sub: way Subscribe will go, read from the publisher's state: err resume cache build
 	Out    string    `json:"out,omitempty"`    // next: ev eos nstf force acl unsub block nosub
 	OIdx   uint64    `json:"oidx,omitempty"`   // next: index of the delivered event
 	OEvs   []Ev      `json:"oevs,omitempty"`   // next: delivered events
@@ -202,6 +205,7 @@ type Step struct {
 type Failure struct {
 	Kind  string `json:"kind"`
 	Cause string `json:"cause"`
+	Scope string `json:"scope"` // topic class of the subject concerned: service-health | config-entry | ""
 	Step  int    `json:"step"`
 	C     int    `json:"c"`
 	Msg   string `json:"msg"`
@@ -800,6 +804,7 @@ func (w *World) doSub(st *Step) {
 	st.QIdx = w.query(c.ts).Idx
 	st.QLen = w.pub.VerifQueued()
 	c.req = w.subscribeRequest(c.ts, c.tok, st.ReqIdx)
+	st.Path = w.pub.VerifSubscribePath(c.req)
 	sub, err := w.pub.Subscribe(c.req)
 	if err != nil {
 		st.Err = short(err.Error())
